@@ -1182,6 +1182,23 @@ class Area:
         self.targets = []
 
 
+def localise_decl(name, stmts, tail):
+    """rewrite the assignments `name = e;` (plain variable) inside the statements / tail into `let name = e;`;
+    returns (stmts, tail, number of assignments rewritten)"""
+    cnt = [0]
+
+    def rw(x):
+        if isinstance(x, tuple):
+            if len(x) == 3 and x[0] == "assignp" and isinstance(x[1], tuple) and x[1][0] == "path" and list(x[1][1]) == [name]:
+                cnt[0] += 1
+                return ("let", ("pvar", name), rw(x[2]), None)
+            return tuple(rw(y) for y in x)
+        if isinstance(x, list):
+            return [rw(y) for y in x]
+        return x
+    return rw(list(stmts)), (rw(tail) if tail is not None else None), cnt[0]
+
+
 class GenSym:
     """a generated definition, callable from later ones"""
     def __init__(self, lean, params, ret, uses_k, panics, cgen):
@@ -1796,7 +1813,9 @@ class Tr:
         lead = []
         if sym.uses_k:
             self.uses_k = True
-            lead.append("k")
+            # a callee generated for another (parent) kernel record gets the projection the area names (C03, additive)
+            sk = getattr(sym, "kernel", None)
+            lead.append("k" if sk in (None, self.a.kernel) else getattr(self.a, "kcoerce", {}).get(sk, "k"))
         if sym.cgen:
             if cgen_args is None or len(cgen_args) != len(sym.cgen):
                 self.err("%s needs explicit const-generic arguments %s" % (name, [c[0] for c in sym.cgen]))
@@ -1805,7 +1824,7 @@ class Tr:
 
     def cgen_args(self, gens, sym, env):
         """turbofish arguments → values for the callee's const generics (`B` is implicit in the kernel)"""
-        vals = [g for g in gens if g != "B"]
+        vals = [g for g in gens if g not in ("B", "R")]      # `R`: the rounding-mode type parameter (part of the kernel record)
         out = []
         for g in vals:
             if g in ("true", "false"):
@@ -1996,6 +2015,12 @@ class Tr:
         if k == "letdecl":
             ty = rust_type(s[2], self.a.tmap) if s[2] else None
             if ty is None:
+                # `let x;` that is assigned exactly once, inside a nested block, only to extend a borrow
+                # (`x = …; &x`): the assignment becomes a `let` of that block; any read outside the block then
+                # fails closed as an unknown name (C03, additive: this case used to be rejected)
+                rest2, tail2, n = localise_decl(s[1], rest, tail)
+                if n == 1:
+                    return self.seq(rest2, tail2, env, ctx, ind)
                 self.err("`let %s;` without a type" % s[1])
             env[s[1]] = ("uninit", ty)
             return self.seq(rest, tail, env, ctx, ind)
@@ -2338,6 +2363,15 @@ class Target:
 
 def gen_target(area, syms, t):
     src = read(t.rel)
+    if t.macro == "subst":
+        # the item lives in a `macro_rules!` body: instantiate the macro's identifier parameters textually
+        mparams, mbody = macro_body(src, t.macro_args["name"])
+        if sorted(mparams) != sorted(t.macro_args["subst"]):
+            raise ExtractError("%s: macro %s has parameters %s, expected %s" % (t.rel, t.macro_args["name"], mparams, sorted(t.macro_args["subst"])))
+        line0 = line_of(src, src.index(mbody))
+        src = "\n" * (line0 - 1) + mbody
+        for mp_, mv_ in t.macro_args["subst"].items():
+            src = re.sub(r"\$%s\b" % re.escape(mp_), mv_, src)
     it = fn_item(src, t.fn, t.after, t.rel)
     where = "%s:%d `%s`" % (t.rel, it["lines"][0], t.fn)
     tmap = dict(area.tmap)
@@ -2437,6 +2471,7 @@ def gen_target(area, syms, t):
                                                 "; result `Except Panic _`: the body can panic" if panic_mode else "")
     lean = "%s\ndef %s %s : %s :=\n    %s\n" % (doc, t.lean, " ".join(sig), ty_lean(fin), text)
     sym = GenSym("Gen." + t.lean if False else t.lean, params, ret, tr.uses_k, panic_mode, cgen)
+    sym.kernel = area.kernel
     if not t.register:
         return lean, h
     if t.method_of:
@@ -2494,6 +2529,8 @@ def gen_const(area, syms, t):
 
 def gen_area(area, syms):
     out = ["import Dashu.Model.GluePrelude.Ext"]
+    for imp_ in getattr(area, "imports", ()):
+        out.append("import %s" % imp_)
     for u in area.uses:
         out.append("import Dashu.Gen.%s" % u)
     out += ["/-! GENERATED by vlib/extract.py from /repo — do not edit.  %s -/" % area.doc,
@@ -2502,10 +2539,16 @@ def gen_area(area, syms):
         out.append(area.variables)
     out.append("")
     info = {}
-    for t in area.targets:
-        lean, h = gen_const(area, syms, t) if t.macro == "const" else gen_target(area, syms, t)
-        out.append(lean)
-        info[t.lean] = h
+    pre_ = getattr(area, "presyms", None) or {}
+    syms.update(pre_)
+    try:
+        for t in area.targets:
+            lean, h = gen_const(area, syms, t) if t.macro == "const" else gen_target(area, syms, t)
+            out.append(lean)
+            info[t.lean] = h
+    finally:
+        for k_ in pre_:
+            syms.pop(k_, None)
     out.append("end Dashu.Gen")
     return "\n".join(out) + "\n", info
 
@@ -2691,7 +2734,65 @@ def build_areas():
     a.targets.append(Target(Q, "repr_cmp_ibig", lean="q_repr_cmp_ibig"))
     a.targets.append(Target(Q, "repr_cmp_fbig", lean="q_repr_cmp_fbig", after=r"mod with_float \{"))
     areas.append(a)
+    areas += float_arith_areas(IMPL_CTX)
     return areas
+
+
+def float_arith_areas(IMPL_CTX):
+    """C03 (round 4): `Context::mul/sqr/cubic`, `Context::repr_div/div/inv` and the operator impls `FBig * FBig`,
+    `FBig / FBig`, `FBig::sqr/cubic`, `Inverse for FBig` regenerated as typed Lean text.  Kernel record
+    `GluePrelude.FloatK2` (= FloatK + `digits_lb`, `round_ratio`); `IBig::div_rem` is the hand-written panicking
+    primitive `GluePrelude.IBig_div_rem` (lean/Dashu/Model/GluePrelude/FloatArith.lean)."""
+    def area(name, doc, uses):
+        a = float_area(name, doc, uses=uses)
+        a.kernel = "GluePrelude.FloatK2 E"
+        a.kcoerce = {"GluePrelude.FloatK E": "k.toFloatK"}
+        a.imports = ["Dashu.Model.GluePrelude.FloatArith"]
+        a.consts = dict(a.consts)
+        a.consts[("usize", "MAX")] = ("GluePrelude.usize_MAX", "Int")
+        a.methods = dict(a.methods)
+        a.methods[("Int", "sqr")] = ("(GluePrelude.mul_ {0} {0})", "Int")
+        a.methods[("Int", "cubic")] = ("(GluePrelude.mul_ (GluePrelude.mul_ {0} {0}) {0})", "Int")
+        a.methods[("FRepr", "digits_lb")] = ("(k.digits_lb {0})", "Int")
+        a.funcs = dict(a.funcs)
+        a.funcs["R::round_ratio"] = ("(k.round_ratio {0} {1} {2})", "Rounding", ["Int", "Int", "Int"])
+        dr = GenSym("GluePrelude.IBig_div_rem", [("self", "Int"), ("rhs", "Int")], ("tuple", ("Int", "Int")), False, True, [])
+        dr.kernel = None
+        a.presyms = {("Int", "div_rem"): dr}
+        return a
+
+    out = []
+    M = "float/src/mul.rs"
+    a = area("FloatMul", "Multiplication of floats: `float/src/mul.rs` (Context methods and the operator impls).",
+             ["FloatRepr", "FloatRound"])
+    for fn in ("mul", "sqr", "cubic"):
+        a.targets.append(Target(M, fn, lean="Context_" + fn, after=IMPL_CTX, self_ty="FCtx", method_of="FCtx",
+                                doc="Context::<R>::" + fn))
+    for tag, hdr in (("ref_ref", r"Mul<&'r FBig<R, B>> for &'l FBig<R, B> \{"), ("val_ref", r"Mul<&'r FBig<R, B>> for FBig<R, B> \{"),
+                     ("ref_val", r"Mul<FBig<R, B>> for &'l FBig<R, B> \{"), ("val_val", r"Mul<FBig<R, B>> for FBig<R, B> \{")):
+        a.targets.append(Target(M, "mul", lean="FBig_mul_" + tag, after=hdr, self_ty="FBig", register=False,
+                                doc="<FBig as Mul<FBig>>::mul, form " + tag))
+    IMPL_FBIG = r"impl<R: Round, const B: Word> FBig<R, B> \{"
+    for fn in ("sqr", "cubic"):
+        a.targets.append(Target(M, fn, lean="FBig_" + fn, after=IMPL_FBIG, self_ty="FBig", register=False, doc="FBig::<R, B>::" + fn))
+    out.append(a)
+
+    D = "float/src/div.rs"
+    a = area("FloatDiv", "Division of floats: `float/src/div.rs` (`repr_div`, `Context::div` / `inv` and the operator impls).",
+             ["FloatRepr", "FloatRound"])
+    for fn in ("repr_div", "div", "inv"):
+        a.targets.append(Target(D, fn, lean="Context_" + fn, after=IMPL_CTX, self_ty="FCtx", method_of="FCtx",
+                                doc="Context::<R>::" + fn))
+    margs = {"name": "impl_div_or_rem_for_fbig", "subst": {"op": "Div", "method": "div", "repr_method": "repr_div"}}
+    for tag, hdr in (("val_val", r"Div<FBig<R, B>> for FBig<R, B> \{"), ("ref_val", r"Div<FBig<R, B>> for &'l FBig<R, B> \{"),
+                     ("val_ref", r"Div<&'r FBig<R, B>> for FBig<R, B> \{"), ("ref_ref", r"Div<&'r FBig<R, B>> for &'l FBig<R, B> \{")):
+        a.targets.append(Target(D, "div", lean="FBig_div_" + tag, after=hdr, self_ty="FBig", register=False, macro="subst",
+                                macro_args=margs, doc="<FBig as Div<FBig>>::div (impl_div_or_rem_for_fbig!), form " + tag))
+    for tag, hdr in (("val", r"Inverse for FBig<R, B> \{"), ("ref", r"Inverse for &FBig<R, B> \{")):
+        a.targets.append(Target(D, "inv", lean="FBig_inv_" + tag, after=hdr, self_ty="FBig", register=False,
+                                doc="<FBig as Inverse>::inv, form " + tag))
+    out.append(a)
+    return out
 
 
 def regenerate_v2(out_dir, only=None):
@@ -3651,7 +3752,359 @@ def gen_modular():
 FILES["Modular.lean"] = gen_modular               # C13: reduced-ring decision logic (additive)
 
 
-# ------------------------------------------------------------------ C09: integer/src/math.rs helpers over CHECKED machine integers
+# ------------------------------------------------------------------ C09: integer/src/math.rs helpers + the inline arms of bits.rs / shift_ops.rs
+#                                                                    over CHECKED machine integers
+
+class PM(P):
+    """the first parser, but casts are kept: `e as T` -> ("cast", e, "T")"""
+    def expr(self, minp=0, nostruct=False):
+        lhs = self.unary(nostruct)
+        while True:
+            k, v = self.peek()
+            if v == "as":
+                self.next()
+                lhs = ("cast", lhs, "::".join(self.path()))
+                continue
+            if v in self.BIN:
+                p = self.BIN[v]
+                if p < minp:
+                    break
+                self.next()
+                rhs = self.expr(p + 1, nostruct)
+                lhs = ("bin", v, lhs, rhs)
+                continue
+            break
+        return lhs
+
+
+class MachTr:
+    """Rust integer code (let / if-else / arithmetic / shifts / casts / calls of already generated functions) ->
+    a Lean `do` block in `Option` over `GluePrelude.MachInt` (checked operations).  Widths are Lean terms:
+    `bits` (generic T), `U` (usize), `32` (u32), `W` (Word), `(2 * W)` (DoubleWord)."""
+    WIDTH = {"T": "bits", "usize": "U", "u32": "32", "Word": "W", "DoubleWord": "(2 * W)"}
+    NEEDS = {"T": "bits", "usize": "U", "Word": "W", "DoubleWord": "W"}
+
+    def __init__(self, ns):
+        self.sigs = {}          # generated function -> (width parameters, parameter names, result widths, Lean name)
+        self.ns = ns
+
+    def fail(self, msg):
+        raise ExtractError("%s: %s" % (self.what, msg))
+
+    def fresh(self):
+        self.counter += 1
+        return "t_%d" % self.counter
+
+    def unify(self, a, b, ctx):
+        if a is None:
+            return b
+        if b is None or a == b:
+            return a
+        self.fail("operands of different widths (%s, %s) in `%s`" % (a, b, ctx))
+
+    CONSTS = {("T", "BIT_SIZE"): ("bits", "32"), ("Word", "BIT_SIZE"): ("W", "32"), ("WORD_BITS",): ("W", "32"),
+              ("DWORD_BITS",): ("(2 * W)", "32"), ("Word", "MAX"): ("(MachInt.maxVal W)", "W"),
+              ("DoubleWord", "MAX"): ("(MachInt.maxVal (2 * W))", "(2 * W)"),
+              ("WORD_BITS_USIZE",): ("W", "U"), ("DWORD_BITS_USIZE",): ("(2 * W)", "U"),
+              ("true",): ("true", "Bool"), ("false",): ("false", "Bool")}
+
+    def wof(self, e, env):
+        """width of an expression without emitting anything (None: an untyped literal)"""
+        k = e[0]
+        if k == "num":
+            return None
+        if k == "path":
+            p = tuple(e[1])
+            if len(p) == 1 and p[0] in env:
+                return env[p[0]]
+            if p in self.CONSTS:
+                return self.CONSTS[p][1]
+            self.fail("name `%s` outside the subset" % "::".join(p))
+        if k == "cast":
+            if e[2] == "_":
+                return None           # inferred from the context (the callee's parameter type)
+            if e[2] not in self.WIDTH:
+                self.fail("cast to `%s` outside the subset" % e[2])
+            return self.WIDTH[e[2]]
+        if k == "call" and e[1][0] == "path":
+            f = tuple(e[1][1])
+            if f == ("T", "from"):
+                return "bits"
+            if f in (("extend_word",), ("double_word",), ("Repr", "from_dword"), ("Repr", "zero"), ("Repr", "from_word"),
+                     ("Self", "from_word"), ("Self", "from_dword")):
+                return "(2 * W)"
+            if f == ("split_dword",):
+                return ("tuple", ["W", "W"])
+            if len(f) == 1 and f[0] in self.sigs:
+                rws = self.sigs[f[0]][2]
+                return rws[0] if len(rws) == 1 else ("tuple", rws)
+            self.fail("call of `%s` outside the subset" % "::".join(f))
+        if k == "mcall":
+            if e[2] == "leading_zeros":
+                return "32"
+            if e[2] == "min" and len(e[3]) == 1:
+                return self.wof(e[1], env) or self.wof(e[3][0], env)
+            self.fail("method `%s` outside the subset" % e[2])
+        if k == "bin":
+            if e[1] in ("==", "!=", "<", ">", "<=", ">=", "&&", "||"):
+                return "Bool"
+            if e[1] in ("<<", ">>"):
+                return self.wof(e[2], env)
+            return self.wof(e[2], env) or self.wof(e[3], env)
+        if k == "un":
+            return self.wof(e[2], env)
+        if k == "tuple":
+            return ("tuple", [self.wof(x, env) for x in e[1]])
+        self.fail("expression form `%s` outside the subset" % k)
+
+    def ex(self, e, env, lines, ind, expect=None):
+        """-> (Lean atom, width term | None | 'Bool' | ('tuple', [...])); checked operations are bound in `lines`"""
+        k = e[0]
+        if k == "num":
+            return str(int(re.sub(r"[iu](8|16|32|64|128|size)$", "", e[1]).replace("_", ""), 0)), expect
+        if k == "path":
+            p = tuple(e[1])
+            if len(p) == 1 and p[0] in env:
+                return p[0], env[p[0]]
+            if p in self.CONSTS:
+                return self.CONSTS[p]
+            self.fail("name `%s` outside the subset" % "::".join(p))
+        if k == "cast":
+            a, w = self.ex(e[1], env, lines, ind)
+            tw = self.wof(e, env)
+            if e[2] == "_":
+                if expect is None or isinstance(expect, tuple) or expect in ("Bool", "reprs"):
+                    self.fail("`as _` where the target type is not fixed by a callee's parameter")
+                tw = expect
+            if w is None or isinstance(w, tuple) or w == "Bool":
+                self.fail("cast of an untyped value")
+            if tw == w:
+                return a, tw
+            # a narrowing cast truncates (`usize as u32`); a widening one keeps the value.  Which of the two it is
+            # depends on the parameters, so the truncation is always written: `x % 2^tw` (the identity when x < 2^tw)
+            return "(MachInt.cast %s %s)" % (tw, a), tw
+        if k == "call" and e[1][0] == "path":
+            f = tuple(e[1][1])
+            args = e[2]
+            if f == ("T", "from") and len(args) == 1 and args[0][0] == "num":
+                return self.ex(args[0], env, lines, ind)[0], "bits"
+            if f == ("split_dword",) and len(args) == 1:
+                a, w = self.ex(args[0], env, lines, ind, "(2 * W)")
+                self.unify(w, "(2 * W)", "split_dword")
+                return "(MachInt.split_dword W %s)" % a, ("tuple", ["W", "W"])
+            if f == ("extend_word",) and len(args) == 1:
+                a, w = self.ex(args[0], env, lines, ind, "W")
+                self.unify(w, "W", "extend_word")
+                return a, "(2 * W)"
+            if f == ("double_word",) and len(args) == 2:
+                a, wa = self.ex(args[0], env, lines, ind, "W")
+                b, wb = self.ex(args[1], env, lines, ind, "W")
+                self.unify(wa, "W", "double_word"); self.unify(wb, "W", "double_word")
+                return "(MachInt.double_word W %s %s)" % (a, b), "(2 * W)"
+            if f in (("Repr", "from_word"), ("Self", "from_word")) and len(args) == 1:
+                a, w = self.ex(args[0], env, lines, ind, "W")
+                self.unify(w, "W", "from_word")
+                return a, "(2 * W)"
+            if f in (("Repr", "from_dword"), ("Self", "from_dword")) and len(args) == 1:       # the inline representation IS its double word
+                a, w = self.ex(args[0], env, lines, ind, "(2 * W)")
+                self.unify(w, "(2 * W)", "Repr::from_dword")
+                return a, "(2 * W)"
+            if f == ("Repr", "zero") and not args:
+                return "0", "(2 * W)"
+            if len(f) == 1 and f[0] in self.sigs:
+                wp, pws, rws, lean = self.sigs[f[0]]
+                if len(args) != len(pws):
+                    self.fail("call of %s with %d arguments" % (f[0], len(args)))
+                for w_ in wp:
+                    if w_ not in self.wparams:
+                        self.fail("call of %s needs the width parameter %s" % (f[0], w_))
+                atoms = []
+                for a_, pw in zip(args, pws):
+                    a, w = self.ex(a_, env, lines, ind, pw)
+                    self.unify(w, pw, "argument of " + f[0])
+                    atoms.append(a)
+                t = self.fresh()
+                lines.append("%slet %s ← %s %s" % (ind, t, lean, " ".join(wp + atoms)))
+                return t, (rws[0] if len(rws) == 1 else ("tuple", rws))
+            self.fail("call of `%s` outside the subset" % "::".join(f))
+        if k == "mcall" and e[2] == "leading_zeros" and not e[3]:
+            a, w = self.ex(e[1], env, lines, ind)
+            if w is None:
+                self.fail("leading_zeros of an untyped literal")
+            return "(MachInt.leading_zeros %s %s)" % (w, a), "32"
+        if k == "mcall" and e[2] == "min" and len(e[3]) == 1:
+            w = self.wof(e, env)
+            a, wa = self.ex(e[1], env, lines, ind, w)
+            b, wb = self.ex(e[3][0], env, lines, ind, w)
+            self.unify(wa, wb, "min")
+            return "(min %s %s)" % (a, b), w
+        if k == "un" and e[1] == "!":
+            a, w = self.ex(e[2], env, lines, ind, expect)
+            if w is None or isinstance(w, tuple):
+                self.fail("`!` of an untyped value")
+            if w == "Bool":
+                return "(!%s)" % a, "Bool"
+            return "(MachInt.not %s %s)" % (w, a), w
+        if k == "bin":
+            op = e[1]
+            if op == "&&":
+                # short circuit: the right operand (which may overflow) is evaluated only when the left one holds
+                a, wa = self.ex(e[2], env, lines, ind)
+                if wa != "Bool":
+                    self.fail("`&&` of a non-boolean")
+                t = self.fresh()
+                sub = []
+                b, wb = self.ex(e[3], env, sub, ind + "  ")
+                if wb != "Bool":
+                    self.fail("`&&` of a non-boolean")
+                lines.append("%slet %s ← (if %s then do" % (ind, t, a))
+                lines += sub
+                lines.append("%s  pure %s" % (ind, b))
+                lines.append("%selse pure false : Option Bool)" % ind)
+                return t, "Bool"
+            if op in ("==", "!=", "<", ">", "<=", ">="):
+                w = self.wof(e[2], env) or self.wof(e[3], env)
+                a, wa = self.ex(e[2], env, lines, ind, w)
+                b, wb = self.ex(e[3], env, lines, ind, w)
+                self.unify(wa, wb, op)
+                lop = {"==": "==", "!=": "!=", "<": "<", ">": ">", "<=": "≤", ">=": "≥"}[op]
+                return ("(%s %s %s)" % (a, lop, b)) if op in ("==", "!=") else ("(decide (%s %s %s))" % (a, lop, b)), "Bool"
+            if op in ("<<", ">>"):
+                a, wa = self.ex(e[2], env, lines, ind, expect)
+                b, wb = self.ex(e[3], env, lines, ind)
+                if wa is None or isinstance(wa, tuple) or wa == "Bool":
+                    self.fail("shift of an untyped value")
+                t = self.fresh()
+                lines.append("%slet %s ← MachInt.%s %s %s %s" % (ind, t, "shl" if op == "<<" else "shr", wa, a, b))
+                return t, wa
+            if op in ("+", "-", "*", "/", "%", "|", "&", "^"):
+                w = self.wof(e[2], env) or self.wof(e[3], env) or expect
+                a, wa = self.ex(e[2], env, lines, ind, w)
+                b, wb = self.ex(e[3], env, lines, ind, w)
+                w = self.unify(wa, wb, op)
+                if w is None or isinstance(w, tuple) or w == "Bool":
+                    self.fail("arithmetic on untyped values")
+                if op in ("|", "&", "^"):
+                    return "(%s %s %s)" % (a, {"|": "|||", "&": "&&&", "^": "^^^"}[op], b), w
+                t = self.fresh()
+                lines.append("%slet %s ← MachInt.%s %s %s %s" % (ind, t, {"+": "add", "-": "sub", "*": "mul", "/": "div", "%": "rem"}[op], w, a, b))
+                return t, w
+            self.fail("operator `%s` outside the subset" % op)
+        if k == "tuple":
+            parts = [self.ex(x, env, lines, ind, "(2 * W)" if expect == "reprs" else None) for x in e[1]]
+            return "(" + ", ".join(p[0] for p in parts) + ")", ("tuple", [p[1] for p in parts])
+        self.fail("expression form `%s` outside the subset" % k)
+
+    def blk(self, b, env, lines, ind):
+        env = dict(env)
+        if b[0] != "block":
+            b = ("block", [], b)
+        for st in b[1]:
+            if st[0] == "let":
+                a, w = self.ex(st[2], env, lines, ind)
+                pat = st[1]
+                if pat[0] == "pvar":
+                    lines.append("%slet %s := %s" % (ind, pat[1], a))
+                    env[pat[1]] = w
+                elif pat[0] == "ptuple" and isinstance(w, tuple) and len(w[1]) == len(pat[1]) and all(p[0] == "pvar" for p in pat[1]):
+                    t = self.fresh()
+                    lines.append("%slet %s := %s" % (ind, t, a))
+                    n = len(pat[1])
+                    for i, p in enumerate(pat[1]):
+                        lines.append("%slet %s := %s" % (ind, p[1], proj(t, i, n)))
+                        env[p[1]] = w[1][i]
+                else:
+                    self.fail("`let` pattern outside the subset")
+            else:
+                self.fail("statement `%s` outside the subset" % st[0])
+        tail = b[2]
+        if tail is None:
+            self.fail("block without a result")
+        if tail[0] == "block":
+            return self.blk(tail, env, lines, ind)
+        if tail[0] == "if":
+            c, wc = self.ex(tail[1], env, lines, ind)
+            if wc != "Bool" or tail[3] is None or tail[3][0] not in ("block", "if"):
+                self.fail("`if` outside the subset")
+            lines.append("%sif %s then do" % (ind, c))
+            self.blk(tail[2], env, lines, ind + "  ")
+            lines.append("%selse do" % ind)
+            self.blk(tail[3] if tail[3][0] == "block" else ("block", [], tail[3]), env, lines, ind + "  ")
+            return
+        a, w = self.ex(tail, env, lines, ind, self.ret_expect)
+        lines.append("%spure %s" % (ind, a))
+
+    def ret_widths(self, ret):
+        ret = ret.strip()
+        if ret.startswith("("):
+            return [self.ret_widths(x)[0] for x in split_top(ret[1:-1]) if x.strip()]
+        if ret == "bool":
+            return ["Bool"]
+        if ret == "Repr":
+            return ["(2 * W)"]
+        if ret not in self.WIDTH:
+            self.fail("result type `%s` outside the subset" % ret)
+        return [self.WIDTH[ret]]
+
+    def function(self, it, name, lean, doc, out, small_arm=None, extra_w=()):
+        """one `fn` item (fn_item record) -> a generated definition appended to `out`; `small_arm`: the body is
+        `match self { Small(dword) | RefSmall(dword) => ARM, … }` and only ARM is translated (self = the double word)"""
+        self.what = "%s (%s:%d)" % (name, it["rel"], it["lines"][0])
+        self.counter = 0
+        toks = tokenize(it["body"])
+        params = [(pn, ty) for pn, ty in it["params"] if pn != "self"]
+        wparams = list(extra_w)
+        for pn, ty in params:
+            if ty not in self.WIDTH:
+                self.fail("parameter type `%s` outside the subset" % ty)
+            if self.NEEDS.get(ty) and self.NEEDS[ty] not in wparams:
+                wparams.append(self.NEEDS[ty])
+        self.what_ret = it["ret"] or ""
+        rws = self.ret_widths(it["ret"] or "")
+        if re.search(r"\b(Word|DoubleWord|WORD_BITS|DWORD_BITS|WORD_BITS_USIZE|DWORD_BITS_USIZE|Repr)\b", it["body"] + " " + (it["ret"] or "")) \
+                and "W" not in wparams:
+            wparams.append("W")
+        self.wparams = wparams
+        self.ret_expect = "reprs" if len(rws) > 1 and all(w == "(2 * W)" for w in rws) and "Repr" in (it["ret"] or "") else \
+            (rws[0] if len(rws) == 1 and rws[0] != "Bool" else None)
+        env = dict((pn, self.WIDTH[ty]) for pn, ty in params)
+        pnames = [pn for pn, _ in params]
+        if small_arm:
+            body = re.sub(r"//[^\n]*", "", it["body"])
+            if not re.match(r"\{\s*match self \{", body):
+                self.fail("the body is no longer a single `match self { … }`")
+            ms = list(re.finditer(r"\b(?:Ref)?Small\((\w+)\)\s*=>\s*", body))
+            if len(ms) != 1:
+                self.fail("expected exactly one `Small(x)` / `RefSmall(x)` arm, found %d" % len(ms))
+            var, q = ms[0].group(1), ms[0].end()
+            if body[q] == "{":
+                arm = body[q:balanced(body, q)]
+            else:
+                depth, r = 0, q
+                while not (depth == 0 and body[r] == ","):
+                    depth += body[r] in "([{"
+                    depth -= body[r] in ")]}"
+                    if depth < 0:
+                        break
+                    r += 1
+                arm = "{ " + body[q:r] + " }"
+            env[var] = "(2 * W)"
+            pnames = [var] + pnames
+            toks = tokenize(arm)
+        ast = PM(toks).block()
+        self.sigs[name] = (wparams, [env[p] for p in pnames], rws, lean)
+        lines = []
+        self.blk(ast, env, lines, "    ")
+        def lty(w):
+            return "Bool" if w == "Bool" else "Nat"
+        rty = lty(rws[0]) if len(rws) == 1 else " × ".join(lty(w) for w in rws)
+        sha = hashlib.sha1(re.sub(r"\s+", " ", it["text"]).encode()).hexdigest()[:12]
+        out.append("/-- %s — %s:%d-%d, sha1 %s -/" % (doc, it["rel"], it["lines"][0], it["lines"][1], sha))
+        out.append("def %s %s: Option (%s) := do" % (lean, "".join("(%s : Nat) " % x for x in wparams + pnames), rty))
+        out += lines
+        out.append("")
+        return sha
+
 
 def gen_math_helpers():
     """C09 (Tie A): the small arithmetic helpers of integer/src/math.rs (`bit_len`, `ceil_log2`, `ceil_div`, `ceil_div_usize`,
@@ -3662,194 +4115,226 @@ def gen_math_helpers():
     on unbounded integers, overflowing near the type maximum — no longer checks.  Fails closed outside the subset."""
     rel = "integer/src/math.rs"
     src = read(rel)
-    # width of a Rust type, as a Lean term (None: not an integer type of the subset)
-    WIDTH = {"T": "bits", "usize": "U", "u32": "32", "Word": "W", "DoubleWord": "(2 * W)"}
-    NEEDS = {"T": "bits", "usize": "U", "Word": "W", "DoubleWord": "W"}
-    FNS = ["bit_len", "ceil_log2", "ceil_div", "ceil_div_usize", "round_up", "round_up_usize", "ones_word", "ones_dword",
-           "shl_dword", "shr_word"]
-    sigs, out, info = {}, [], {}
+    out, info = [], {}
     out += ["import Dashu.Model.GluePrelude.MachInt",
             "/-! GENERATED by vlib/extract.py from /repo — do not edit.  C09: the helpers of `integer/src/math.rs` over checked",
             "    machine integers (`none` = arithmetic overflow: a panic in debug builds, a wrapped value in release builds). -/",
             "namespace Dashu.Gen.MathHelpers", "open Dashu.GluePrelude", "set_option linter.unusedVariables false", ""]
-
-    def ret_widths(ret, what):
-        ret = ret.strip()
-        if ret.startswith("("):
-            return [ret_widths(x, what)[0] for x in split_top(ret[1:-1]) if x.strip()]
-        if ret not in WIDTH:
-            raise ExtractError("%s: result type `%s` outside the subset" % (what, ret))
-        return [WIDTH[ret]]
-
-    for name in FNS:
+    tr = MachTr("MathHelpers")
+    for name in ["bit_len", "ceil_log2", "ceil_div", "ceil_div_usize", "round_up", "round_up_usize", "ones_word", "ones_dword",
+                 "shl_dword", "shr_word"]:
         it = fn_item(src, name, rel=rel)
-        what = "%s (%s:%d)" % (name, rel, it["lines"][0])
-        toks = tokenize(it["body"])
-        if any(v == "as" for _, v in toks):
-            raise ExtractError("%s: a cast (`as`) appeared in the body — not in the subset (casts change the width)" % what)
-        wparams = []
-        for pn, ty in it["params"]:
-            if ty not in WIDTH:
-                raise ExtractError("%s: parameter type `%s` outside the subset" % (what, ty))
-            if NEEDS.get(ty) and NEEDS[ty] not in wparams:
-                wparams.append(NEEDS[ty])
-        rw = ret_widths(it["ret"] or "", what)
-        for ty in re.findall(r"\b(Word|DoubleWord|WORD_BITS|DWORD_BITS)\b", it["body"] + " " + (it["ret"] or "")):
-            if "W" not in wparams:
-                wparams.append("W")
-        sigs[name] = (wparams, [pn for pn, _ in it["params"]], rw)
-        env = dict((pn, WIDTH[ty]) for pn, ty in it["params"])
-        ast = P(toks).block()
-        counter = [0]
-
-        def fresh():
-            counter[0] += 1
-            return "t_%d" % counter[0]
-
-        def unify(a, b, ctx):
-            if a is None:
-                return b
-            if b is None or a == b:
-                return a
-            raise ExtractError("%s: operands of different widths (%s, %s) in `%s`" % (what, a, b, ctx))
-
-        def ex(e, env, lines, ind):
-            """-> (Lean atom, width term | None for an untyped literal | 'Bool' | ('tuple', [...]))"""
-            k = e[0]
-            if k == "num":
-                return str(int(re.sub(r"[iu](8|16|32|64|128|size)$", "", e[1]).replace("_", ""), 0)), None
-            if k == "path":
-                p = tuple(e[1])
-                if len(p) == 1 and p[0] in env:
-                    return p[0], env[p[0]]
-                if p == ("T", "BIT_SIZE"):
-                    return "bits", "32"
-                if p in (("Word", "BIT_SIZE"), ("WORD_BITS",)):
-                    return "W", "32"
-                if p == ("DWORD_BITS",):
-                    return "(2 * W)", "32"
-                if p == ("Word", "MAX"):
-                    return "(MachInt.maxVal W)", "W"
-                if p == ("DoubleWord", "MAX"):
-                    return "(MachInt.maxVal (2 * W))", "(2 * W)"
-                raise ExtractError("%s: name `%s` outside the subset" % (what, "::".join(p)))
-            if k == "call" and e[1][0] == "path":
-                f = tuple(e[1][1])
-                args = e[2]
-                if f == ("T", "from") and len(args) == 1 and args[0][0] == "num":
-                    return ex(args[0], env, lines, ind)[0], "bits"
-                if f == ("split_dword",) and len(args) == 1:
-                    a, w = ex(args[0], env, lines, ind)
-                    unify(w, "(2 * W)", "split_dword")
-                    return "(MachInt.split_dword W %s)" % a, ("tuple", ["W", "W"])
-                if f == ("extend_word",) and len(args) == 1:
-                    a, w = ex(args[0], env, lines, ind)
-                    unify(w, "W", "extend_word")
-                    return a, "(2 * W)"
-                if f == ("double_word",) and len(args) == 2:
-                    a, wa = ex(args[0], env, lines, ind)
-                    b, wb = ex(args[1], env, lines, ind)
-                    unify(wa, "W", "double_word"); unify(wb, "W", "double_word")
-                    return "(MachInt.double_word W %s %s)" % (a, b), "(2 * W)"
-                if len(f) == 1 and f[0] in sigs:
-                    wp, pns, rws = sigs[f[0]]
-                    if len(args) != len(pns):
-                        raise ExtractError("%s: call of %s with %d arguments" % (what, f[0], len(args)))
-                    for w_ in wp:
-                        if w_ not in sigs[name][0]:
-                            raise ExtractError("%s: call of %s needs the width parameter %s" % (what, f[0], w_))
-                    atoms = [ex(a, env, lines, ind)[0] for a in args]
-                    t = fresh()
-                    lines.append("%slet %s ← %s %s" % (ind, t, f[0], " ".join(wp + atoms)))
-                    return t, (rws[0] if len(rws) == 1 else ("tuple", rws))
-                raise ExtractError("%s: call of `%s` outside the subset" % (what, "::".join(f)))
-            if k == "mcall" and e[2] == "leading_zeros" and not e[3]:
-                a, w = ex(e[1], env, lines, ind)
-                if w is None:
-                    raise ExtractError("%s: leading_zeros of an untyped literal" % what)
-                return "(MachInt.leading_zeros %s %s)" % (w, a), "32"
-            if k == "bin":
-                op = e[1]
-                a, wa = ex(e[2], env, lines, ind)
-                b, wb = ex(e[3], env, lines, ind)
-                if op in ("==", "!=", "<", ">", "<=", ">="):
-                    unify(wa, wb, op)
-                    lop = {"==": "==", "!=": "!=", "<": "<", ">": ">", "<=": "≤", ">=": "≥"}[op]
-                    return ("(%s %s %s)" % (a, lop, b)) if op in ("==", "!=") else ("(decide (%s %s %s))" % (a, lop, b)), "Bool"
-                if op in ("<<", ">>"):
-                    if wa is None or isinstance(wa, tuple):
-                        raise ExtractError("%s: shift of an untyped value" % what)
-                    unify(wb, "32", op)
-                    t = fresh()
-                    lines.append("%slet %s ← MachInt.%s %s %s %s" % (ind, t, "shl" if op == "<<" else "shr", wa, a, b))
-                    return t, wa
-                if op in ("+", "-", "*", "/"):
-                    w = unify(wa, wb, op)
-                    if w is None or isinstance(w, tuple):
-                        raise ExtractError("%s: arithmetic on untyped values" % what)
-                    t = fresh()
-                    lines.append("%slet %s ← MachInt.%s %s %s %s" % (ind, t, {"+": "add", "-": "sub", "*": "mul", "/": "div"}[op], w, a, b))
-                    return t, w
-                if op in ("|", "&", "^"):
-                    w = unify(wa, wb, op)
-                    return "(%s %s %s)" % (a, {"|": "|||", "&": "&&&", "^": "^^^"}[op], b), w
-                raise ExtractError("%s: operator `%s` outside the subset" % (what, op))
-            if k == "tuple":
-                parts = [ex(x, env, lines, ind) for x in e[1]]
-                return "(" + ", ".join(p[0] for p in parts) + ")", ("tuple", [p[1] for p in parts])
-            raise ExtractError("%s: expression form `%s` outside the subset" % (what, k))
-
-        def blk(b, env, lines, ind):
-            env = dict(env)
-            assert b[0] == "block"
-            for st in b[1]:
-                if st[0] == "let":
-                    a, w = ex(st[2], env, lines, ind)
-                    pat = st[1]
-                    if pat[0] == "pvar":
-                        lines.append("%slet %s := %s" % (ind, pat[1], a))
-                        env[pat[1]] = w
-                    elif pat[0] == "ptuple" and isinstance(w, tuple) and len(w[1]) == len(pat[1]) and all(p[0] == "pvar" for p in pat[1]):
-                        t = fresh()
-                        lines.append("%slet %s := %s" % (ind, t, a))
-                        n = len(pat[1])
-                        for i, p in enumerate(pat[1]):
-                            lines.append("%slet %s := %s" % (ind, p[1], proj(t, i, n)))
-                            env[p[1]] = w[1][i]
-                    else:
-                        raise ExtractError("%s: `let` pattern outside the subset" % what)
-                else:
-                    raise ExtractError("%s: statement `%s` outside the subset" % (what, st[0]))
-            tail = b[2]
-            if tail is None:
-                raise ExtractError("%s: block without a result" % what)
-            if tail[0] == "if":
-                c, wc = ex(tail[1], env, lines, ind)
-                if wc != "Bool" or tail[3] is None or tail[3][0] != "block":
-                    raise ExtractError("%s: `if` outside the subset" % what)
-                lines.append("%sif %s then do" % (ind, c))
-                blk(tail[2], env, lines, ind + "  ")
-                lines.append("%selse do" % ind)
-                blk(tail[3], env, lines, ind + "  ")
-                return
-            a, w = ex(tail, env, lines, ind)
-            lines.append("%spure %s" % (ind, a))
-
-        lines = []
-        blk(ast, env, lines, "    ")
-        wp, pns, rws = sigs[name]
-        rty = "Nat" if len(rws) == 1 else " × ".join(["Nat"] * len(rws))
-        sha = hashlib.sha1(re.sub(r"\s+", " ", it["text"]).encode()).hexdigest()[:12]
-        out.append("/-- `math::%s` — %s:%d-%d, sha1 %s -/" % (name, rel, it["lines"][0], it["lines"][1], sha))
-        out.append("def %s %s: Option (%s) := do" % (name, "".join("(%s : Nat) " % x for x in wp + pns), rty))
-        out += lines
-        out.append("")
-        info["MathHelpers." + name] = sha
+        info["MathHelpers." + name] = tr.function(it, name, name, "`math::%s`" % name, out)
     out.append("end Dashu.Gen.MathHelpers")
     return "\n".join(out) + "\n", info
 
 
 FILES["MathHelpers.lean"] = gen_math_helpers      # C09: math.rs helpers over checked machine integers (additive)
+
+
+def gen_bits_small():
+    """C09 (Tie A): the INLINE (one double word) arms of the bit operations that take a user-supplied `usize` — the guards
+    `n < DWORD_BITS_USIZE`, the `as u32` casts, the clamps — of integer/src/bits.rs and integer/src/shift_ops.rs, over
+    checked machine integers with truncating casts.  `Props/GenBitsSmall.lean` proves each equal to the arm of the hand
+    model for EVERY `usize` argument (so a guard evaluated after a narrowing cast, or a shift by an unchecked count, no
+    longer checks).  Fails closed outside the subset (e.g. `checked_shr(..).unwrap_or(0)`)."""
+    out, info = [], {}
+    out += ["import Dashu.Gen.MathHelpers",
+            "/-! GENERATED by vlib/extract.py from /repo — do not edit.  C09: the inline (`Small(dword)`) arms of the bit operations",
+            "    with a `usize` argument, `integer/src/bits.rs` / `integer/src/shift_ops.rs`, over checked machine integers;",
+            "    `Repr::from_dword(x)` is `x`, `Repr::zero()` is `0`. -/",
+            "namespace Dashu.Gen.BitsSmall", "open Dashu.GluePrelude Dashu.Gen.MathHelpers", "set_option linter.unusedVariables false", ""]
+    tr = MachTr("BitsSmall")
+    msrc = read("integer/src/math.rs")
+    for name in ("ones_word", "ones_dword"):       # callable from the arms (defined in MathHelpers)
+        tr.function(fn_item(msrc, name, rel="integer/src/math.rs"), name, name, "", [])
+    B, S = "integer/src/bits.rs", "integer/src/shift_ops.rs"
+    bsrc, ssrc = read(B), read(S)
+    REF = r"impl<'a> TypedReprRef<'a> \{"
+    OWN = r"\n    impl TypedRepr \{"
+    jobs = [(ssrc, S, "shr_dword", None, False, "shr_dword", "`shift_ops::repr::shr_dword`"),
+            (bsrc, B, "are_dword_low_bits_nonzero", r"mod repr \{", False, "are_dword_low_bits_nonzero", "`bits::repr::are_dword_low_bits_nonzero`"),
+            (bsrc, B, "bit", REF, True, "bit_small", "`TypedReprRef::bit`, arm `RefSmall(dword)`"),
+            (bsrc, B, "clear_bit", OWN, True, "clear_bit_small", "`TypedRepr::clear_bit`, arm `Small(dword)`"),
+            (bsrc, B, "clear_high_bits", OWN, True, "clear_high_bits_small", "`TypedRepr::clear_high_bits`, arm `Small(dword)`"),
+            (bsrc, B, "split_bits", OWN, True, "split_bits_small", "`TypedRepr::split_bits`, arm `Small(dword)`")]
+    for src, rel, fn, after, arm, lean, doc in jobs:
+        it = fn_item(src, fn, after=after, rel=rel)
+        info["BitsSmall." + lean] = tr.function(it, lean, lean, doc, out, small_arm=arm, extra_w=("W", "U"))
+    # ---- the word-index / bit-offset computations of the HEAP arms: `let x = <expression over the usize argument>;`
+    out.append("-- word index / bit offset computations of the heap arms (`let NAME = …;` statements, in source order)")
+    out.append("")
+    INDEX = [(ssrc, S, "shl_one_spilled", None, ["idx"]),
+             (ssrc, S, "shl_dword_spilled", None, ["shift_words", "shift_bits"]),
+             (ssrc, S, "shl_large", None, ["shift_words", "shift_bits"]),
+             (ssrc, S, "shl_large_ref", None, ["shift_words", "shift_bits"]),
+             (ssrc, S, "shr_large", None, ["shift_words", "shift_bits"]),
+             (ssrc, S, "shr_large_ref", None, ["shift_words", "shift_bits"]),
+             (bsrc, B, "bit", REF, ["idx"]),
+             (bsrc, B, "clear_bit", OWN, ["idx"]),
+             (bsrc, B, "are_slice_low_bits_nonzero", r"mod repr \{", ["n_words", "n_top"]),
+             (bsrc, B, "with_bit_dword_spilled", r"mod repr \{", ["idx"]),
+             (bsrc, B, "with_bit_large", r"mod repr \{", ["idx"]),
+             (bsrc, B, "clear_high_bits_large", r"mod repr \{", ["n_words"])]
+    tr.function(fn_item(msrc, "ceil_div", rel="integer/src/math.rs"), "ceil_div", "ceil_div", "", [])
+    # `ceil_div::<usize>`: the generic width is the usize width at these call sites
+    wp, pws, rws, lean = tr.sigs["ceil_div"]
+    tr.sigs["ceil_div"] = (["U"], ["U", "U"], ["U"], lean)
+    for src, rel, fn, after, names in INDEX:
+        it = fn_item(src, fn, after=after, rel=rel)
+        body = re.sub(r"//[^\n]*", "", it["body"])
+        usz = [pn for pn, ty in it["params"] if ty == "usize"]
+        if len(usz) != 1:
+            raise ExtractError("%s (%s): expected exactly one usize parameter" % (fn, rel))
+        env = {usz[0]: "U"}
+        for nm in names:
+            ms = list(re.finditer(r"\blet\s+(?:mut\s+)?%s\s*(?::\s*\w+\s*)?=\s*([^;]*);" % re.escape(nm), body))
+            if len(ms) != 1:
+                raise ExtractError("%s (%s:%d): expected exactly one `let %s = …;`, found %d" % (fn, rel, it["lines"][0], nm, len(ms)))
+            text = ms[0].group(1)
+            tr.what = "%s, let %s (%s:%d)" % (fn, nm, rel, it["lines"][0])
+            tr.counter = 0
+            tr.wparams = ["W", "U"]
+            tr.ret_expect = None
+            lines = []
+            ast = PM(tokenize("{ " + text + " }")).block()
+            # only the usize argument (not an earlier `let`) may occur: each statement is a function of the argument alone
+            tr.blk(ast, env, lines, "    ")
+            lean = "%s__%s" % (fn, nm)
+            sha = hashlib.sha1(re.sub(r"\s+", " ", text).encode()).hexdigest()[:12]
+            out.append("/-- `let %s = %s;` in `%s` — %s:%d-%d, sha1 %s -/" % (nm, re.sub(r"\s+", " ", text).strip(), fn, rel, it["lines"][0], it["lines"][1], sha))
+            out.append("def %s (W : Nat) (U : Nat) (%s : Nat) : Option (Nat) := do" % (lean, usz[0]))
+            out += lines
+            out.append("")
+            info["BitsSmall." + lean] = sha
+    # ---- Repr::ones (integer/src/repr.rs): which counts are built inline (and how), which on the heap
+    R = "integer/src/repr.rs"
+    rsrc = read(R)
+    it = fn_item(rsrc, "ones", after=r"\nimpl Repr \{", rel=R)
+    body = re.sub(r"//[^\n]*", "", it["body"])
+    m = re.match(r"\{\s*if ([^{}]+?) \{\s*([^{}]+?)\s*\} else if ([^{}]+?) \{\s*([^{}]+?)\s*\} else \{", body)
+    if not m:
+        raise ExtractError("Repr::ones (%s:%d): no longer `if C1 { inline } else if C2 { inline } else { heap }`" % (R, it["lines"][0]))
+    synth = "{ if %s { (true, %s) } else if %s { (true, %s) } else { (false, 0) } }" % m.groups()
+    tr.what = "Repr::ones (%s:%d)" % (R, it["lines"][0])
+    tr.counter = 0
+    tr.wparams = ["W", "U"]
+    tr.ret_expect = None
+    lines = []
+    tr.blk(PM(tokenize(synth)).block(), {"n": "U"}, lines, "    ")
+    sha = hashlib.sha1(re.sub(r"\s+", " ", " ".join(m.groups())).encode()).hexdigest()[:12]
+    out.append("/-- `Repr::ones(n)`: `(true, double word)` when the value is built inline (`if %s { %s } else if %s { %s }`)," % m.groups())
+    out.append("    `(false, 0)` when it is built on the heap — %s:%d-%d, sha1 %s -/" % (R, it["lines"][0], it["lines"][1], sha))
+    out.append("def ones_inline (W : Nat) (U : Nat) (n : Nat) : Option (Bool × Nat) := do")
+    out += lines
+    out.append("")
+    info["BitsSmall.ones_inline"] = sha
+    env = {"n": "U"}
+    for nm in ("lo_words", "hi_bits"):
+        ms = list(re.finditer(r"\blet\s+%s\s*=\s*([^;]*);" % nm, body))
+        if len(ms) != 1:
+            raise ExtractError("Repr::ones (%s:%d): expected exactly one `let %s = …;`" % (R, it["lines"][0], nm))
+        text = ms[0].group(1)
+        tr.what = "Repr::ones, let %s (%s:%d)" % (nm, R, it["lines"][0])
+        tr.counter = 0
+        lines = []
+        tr.blk(PM(tokenize("{ " + text + " }")).block(), env, lines, "    ")
+        sha = hashlib.sha1(re.sub(r"\s+", " ", text).encode()).hexdigest()[:12]
+        out.append("/-- `let %s = %s;` in `Repr::ones` (heap arm) — %s:%d-%d, sha1 %s -/" % (nm, text.strip(), R, it["lines"][0], it["lines"][1], sha))
+        out.append("def ones__%s (W : Nat) (U : Nat) (n : Nat) : Option (Nat) := do" % nm)
+        out += lines
+        out.append("")
+        info["BitsSmall.ones__" + nm] = sha
+    out.append("end Dashu.Gen.BitsSmall")
+    return "\n".join(out) + "\n", info
+
+
+FILES["BitsSmall.lean"] = gen_bits_small          # C09: inline arms of bits.rs / shift_ops.rs with a usize argument (additive)
+
+
+def gen_conv_consts():
+    """C06: the literal constants of the float conversions that the hand-written models `lean/Dashu/Model/Conv/{Exact,Ratio,Base}.lean`
+    carry — `into_f32_internal` / `into_f64_internal` (float/src/convert.rs: width assertion incl. its panic site, overflow and
+    underflow exits), the working precision `FBig/Repr::to_f32/to_f64` hand to `Context::new`, the literal bounds of
+    `impl_conversion_to_float!` and the guard width / exits of `Repr::to_f32/to_f64` (rational/src/convert.rs).
+    `Props/C06.conv_constants_regenerated` proves the models' constants equal to these; the panic-site strings are CALLED by the
+    model.  Fails closed when a routine no longer has the shape the model mirrors."""
+    out = ["/-! GENERATED by vlib/extract.py from /repo — do not edit.  Literal constants of the float conversions (C06). -/",
+           "namespace Dashu.Gen.Conv", ""]
+    info = {}
+
+    def one(pat, text, what):
+        ms = re.findall(pat, text)
+        if len(ms) != 1:
+            raise ExtractError("%s: expected exactly one match of %r, found %d" % (what, pat, len(ms)))
+        return ms[0]
+
+    rel = "float/src/convert.rs"
+    fsrc = read(rel)
+    for ty in ("f32", "f64"):
+        fn = "into_%s_internal" % ty
+        _, body = fn_body(fsrc, fn)
+        body_nc = re.sub(r"//[^\n]*", "", body)
+        prec = int(one(r"debug_assert!\(self\.significand\.bit_len\(\)\s*<=\s*(\d+)\)\s*;", body_nc, rel + " " + fn))
+        inf = int(one(r"if\s+self\.exponent\s*>=\s*(\d+)\s*\{", body_nc, rel + " " + fn))
+        za, zb = one(r"else\s+if\s+self\.exponent\s*<\s*-(\d+)\s*-\s*(\d+)\s*\{", body_nc, rel + " " + fn)
+        one(r"%s::encode\(\w+,\s*self\.exponent as i16\)" % ty, body_nc, rel + " " + fn)
+        # panic site of the width assertion as the harness prints it (`file:line|message`, blanks -> `_`)
+        stmt = "debug_assert!(self.significand.bit_len() <= %d)" % prec
+        pos = fsrc.index(stmt, fsrc.index("fn " + fn))
+        line = fsrc.count("\n", 0, pos) + 1
+        site = "%s:%d|assertion_failed:_self.significand.bit_len()_<=_%d" % (rel, line, prec)
+        out.append("/-- `%s` (%s): `debug_assert!(bit_len <= %d)`, `exponent >= %d`, `exponent < -%s - %s` -/" % (fn, rel, prec, inf, za, zb))
+        out.append("def into_%s_prec : Nat := %d" % (ty, prec))
+        out.append("def into_%s_inf_exp : Int := %d" % (ty, inf))
+        out.append("def into_%s_zero_exp : Int := -%s - %s" % (ty, za, zb))
+        out.append("def into_%s_assert_site : String := \"%s\"\n" % (ty, site))
+        info[fn] = [prec, inf, -int(za) - int(zb), line]
+    # the working precisions: every `to_f32` passes 24, every `to_f64` 53 (FBig and Repr)
+    for ty in ("f32", "f64"):
+        precs = set()
+        n = 0
+        for m in re.finditer(r"pub fn to_%s\(&self\)\s*->\s*Rounded<%s>\s*\{" % (ty, ty), fsrc):
+            b1 = balanced(fsrc, m.end() - 1)
+            body = fsrc[m.end() - 1:b1]
+            precs.add(int(one(r"Context::<\w+>::new\((\d+)\)", body, rel + " to_" + ty)))
+            n += 1
+        if n != 2 or len(precs) != 1:
+            raise ExtractError("%s: expected FBig::to_%s and Repr::to_%s with one common precision, found %d fns, %r" % (rel, ty, ty, n, sorted(precs)))
+        out.append("/-- `Context::new(…)` in `FBig::to_%s` and `Repr::to_%s` -/\ndef to_%s_precision : Nat := %d\n" % (ty, ty, ty, precs.pop()))
+    rrel = "rational/src/convert.rs"
+    rsrc = read(rrel)
+    for ty in ("f32", "f64"):
+        lb, ub = one(r"impl_conversion_to_float!\(%s \[(-?\d+),\s*(-?\d+)\]\)" % ty, rsrc, rrel)
+        out.append("/-- `impl_conversion_to_float!(%s [%s, %s])` (%s) -/" % (ty, lb, ub, rrel))
+        out.append("def rbig_try_to_%s_lb : Int := %s\ndef rbig_try_to_%s_ub : Int := %s\n" % (ty, lb, ty, ub))
+        _, body = fn_body(rsrc, "to_" + ty, after=r"impl_conversion_to_float!\(f64")
+        body_nc = re.sub(r"//[^\n]*", "", body)
+        guard = int(one(r"let\s+shift\s*=\s*num_bits as isize\s*-\s*den_bits as isize\s*-\s*(\d+)\s*;", body_nc, rrel + " to_" + ty))
+        inf = int(one(r"if\s+shift\s*>=\s*([1-9]\d*)\s*\{", body_nc, rrel + " to_" + ty))     # (`shift >= 0` selects the operand to shift)
+        za, zb = one(r"else\s+if\s+shift\s*<\s*-(\d+)\s*-\s*(\d+)\s*\{", body_nc, rrel + " to_" + ty)
+        out.append("/-- `Repr::to_%s` (%s): quotient width `%d`, `shift >= %d`, `shift < -%s - %s` -/" % (ty, rrel, guard, inf, za, zb))
+        out.append("def rbig_to_%s_quotient_bits : Nat := %d\ndef rbig_to_%s_inf_shift : Int := %d\ndef rbig_to_%s_zero_shift : Int := -%s - %s\n"
+                   % (ty, guard, ty, inf, ty, za, zb))
+        info["rbig_to_" + ty] = [int(lb), int(ub), guard, inf, -int(za) - int(zb)]
+    out.append("end Dashu.Gen.Conv")
+    return "\n".join(out) + "\n", info
+
+
+FILES["ConvConsts.lean"] = gen_conv_consts        # C06: literal constants of the float conversions (additive)
+
+def gen_scratch():
+    """C01 (+ targets proposed by C17): `memory_requirement_*` scratch formulas of mul / sqr / div / root, the `shl_large`
+    capacity guard and the buffer / scratch sizes of `pow_word_base` / `pow_dword_base` — see vlib/extract_scratch.py"""
+    import importlib.util, sys
+    spec = importlib.util.spec_from_file_location("vlib_extract_scratch",
+                                                  os.path.join(os.path.dirname(os.path.abspath(__file__)), "extract_scratch.py"))
+    mod = importlib.util.module_from_spec(spec)
+    spec.loader.exec_module(mod)
+    return mod.generate(sys.modules[__name__])
+
+
+FILES["Scratch.lean"] = gen_scratch               # C01/C17: scratch-memory formulas and buffer-size decisions (additive)
 
 # the v2 areas (typed translator) are listed by build_areas(); one Gen file each
 V2_FILES = [a.name + ".lean" for a in build_areas()]
@@ -4013,6 +4498,21 @@ MUTATIONS = [
      "ones_word without the `n == 0` arm: the shift amount reaches the width (Props/GenMath.gen_ones_word)"),
     ("M23", "integer/src/math.rs", r"let \(c, r\) = split_dword\(double_word\(0, w\) >> shift\);\n(\s*)\(r, c\)", "let (c, r) = split_dword(double_word(0, w) >> shift);\n\\1(c, r)",
      "shr_word returns (shifted-out bits, result) in the wrong order (Props/GenMath.gen_shr_word)"),
+    ("M24", "integer/src/shift_ops.rs", r"if rhs < DWORD_BITS_USIZE \{\n\s*Repr::from_dword\(dword >> rhs\)\n\s*\} else \{\n\s*Repr::zero\(\)\n\s*\}",
+     "Repr::from_dword(dword.checked_shr(rhs as u32).unwrap_or(0))",
+     "shr_dword through `checked_shr(rhs as u32)`: the count is truncated to 32 bits before the range test (outside the subset: fails closed)"),
+    ("M25", "integer/src/bits.rs", r"(pub fn clear_high_bits\(self, n: usize\) -> Repr \{\n\s*match self \{\n\s*Small\(dword\) => \{\n\s*)if n < DWORD_BITS_USIZE \{",
+     "\\1if (n as u32) < DWORD_BITS {",
+     "clear_high_bits (inline arm) tests the bit count after narrowing it to u32 (Props/GenBitsSmall.gen_clear_high_bits_small)"),
+    ("M26", "integer/src/bits.rs", r"let n = n\.min\(DWORD_BITS_USIZE\) as u32;", "let n = (n as u32).min(DWORD_BITS);",
+     "are_dword_low_bits_nonzero clamps the count after narrowing it to u32 (Props/GenBitsSmall.gen_are_dword_low_bits_nonzero)"),
+    ("M27", "integer/src/bits.rs", r"RefSmall\(dword\) => n < DWORD_BITS_USIZE && dword & 1 << n != 0,", "RefSmall(dword) => dword & 1 << n != 0,",
+     "TypedReprRef::bit (inline arm) without the range guard: the shift overflows for n >= 128 (Props/GenBitsSmall.gen_bit_small)"),
+    ("M28", "integer/src/shift_ops.rs", r"(pub\(crate\) fn shr_large_ref\(words: &\[Word\], rhs: usize\) -> Repr \{\n\s*)let shift_words = rhs / WORD_BITS_USIZE;",
+     "\\1let shift_words = (rhs as u32 as usize) / WORD_BITS_USIZE;",
+     "shr_large_ref computes the word shift from the count narrowed to u32 (Props/GenBitsSmall.gen_heap_indices)"),
+    ("M29", "integer/src/repr.rs", r"\} else if n <= DWORD_BITS_USIZE \{\n(\s*)Self::from_dword\(ones_dword\(n as _\)\)", "} else if n < DWORD_BITS_USIZE {\n\\1Self::from_dword(ones_dword(n as _))",
+     "Repr::ones builds n = DWORD_BITS on the heap again (the historical non-canonical `ones(128)`; Props/GenBitsSmall.gen_ones_inline)"),
 ]
 
 
@@ -4055,6 +4555,8 @@ BENIGN = [
      "\\1\\4\\3\\2", "match arms Less / Greater exchanged (mode::HalfEven::round_low_part)"),
     ("R15", "float/src/helper_macros.rs", r"self\.\$method\(FBig::<R, B>::from\(rhs\)\)", "self.$method(FBig::<R, B>::from(rhs.clone()))",
      "an extra `.clone()` in one primitive-operand form (erased by the ownership-form translator)"),
+    ("R20", "integer/src/math.rs", r"\(a - T::from\(1u8\)\) / b \+ T::from\(1u8\)", "T::from(1u8) + (a - T::from(1u8)) / b",
+     "commuted `+` in ceil_div (Props/GenMath.gen_ceil_div discharges every overflow side condition by omega)"),
 ]
 
 
